@@ -1,4 +1,4 @@
 """Which level each property's evidence may claim: 'proof' once Properties/<id>.lean contains the
 property's theorems (not the placeholder), 'exploration' before that."""
 LEVEL = {f"C{i:02d}": "exploration" for i in range(1, 19)}
-LEVEL.update({k: "proof" for k in ["C01", "C02", "C03", "C04", "C05", "C07", "C08", "C09", "C10", "C11", "C12", "C13", "C14", "C15", "C16", "C17", "C18"]})
+LEVEL.update({k: "proof" for k in ["C01", "C02", "C03", "C04", "C05", "C06", "C07", "C08", "C09", "C10", "C11", "C12", "C13", "C14", "C15", "C16", "C17", "C18"]})
